@@ -282,6 +282,25 @@ def run_instance(inst):
         kw = {"universe": list(inst["universe"]), "subsets": [list(x) for x in inst["subsets"]], "solver_options": {"threads": 1}}
         if "subset_weights" in inst:
             kw["subset_weights"] = list(inst["subset_weights"])
+    elif inst["cls"] == "MinErrorFlow":
+        G = build_graph(inst)
+        kw = {"G": G, "flow_attr": "flow", "solver_options": {"threads": 1}}
+        if "mode" in inst:
+            kw["flow_attr_origin"] = inst["mode"]
+        if "wt" in inst:
+            kw["weight_type"] = {"int": int, "float": float}[inst["wt"]]
+        if "ign" in inst:
+            kw["elements_to_ignore"] = [elem(e) for e in inst["ign"]]
+        if "starts" in inst:
+            kw["additional_starts"] = list(inst["starts"])
+        if "ends" in inst:
+            kw["additional_ends"] = list(inst["ends"])
+        if "escale" in inst:
+            kw["error_scaling"] = {elem(e): (n / d if d != 1 else n) for (e, n, d) in inst["escale"]}
+        if "lam" in inst:
+            kw["sparsity_lambda"] = inst["lam"][0] / inst["lam"][1]
+        if "eps" in inst:
+            kw["few_flow_values_epsilon"] = inst["eps"][0] / inst["eps"][1]
     elif inst["cls"] == "NumPathsOptimization":
         G = build_graph(inst)
         inner = dict(inst)
@@ -347,7 +366,18 @@ def run_instance(inst):
             try:
                 sol = model.get_solution()
                 out["got_solution"] = sol is not None
-                if isinstance(sol, list):       # MinGenSet / MinSetCover return plain lists
+                if isinstance(sol, dict) and "graph" in sol:       # MinErrorFlow
+                    out["sol_kind"] = "errflow"
+                    g = sol["graph"]
+                    out["c_nodes"] = sorted(str(v) for v in g.nodes())
+                    out["c_edges"] = sorted([str(u), str(v)] for u, v in g.edges())
+                    if inst.get("mode", "edge") == "node":
+                        out["c_vals"] = sorted([str(v), fx(d.get("flow")), tname(d.get("flow"))] for v, d in g.nodes(data=True))
+                    else:
+                        out["c_vals"] = sorted([str(u), str(v), fx(d.get("flow")), tname(d.get("flow"))] for u, v, d in g.edges(data=True))
+                    out["c_error"] = fx(sol.get("error"))
+                    out["c_obj"] = fx(sol.get("objective_value"))
+                elif isinstance(sol, list):       # MinGenSet / MinSetCover return plain lists
                     out["sol_kind"] = "list"
                     out["sol_list"], out["sol_list_types"] = numlist(sol) if all(not isinstance(x, (list, tuple)) for x in sol) else ([], [])
                 else:
